@@ -99,7 +99,7 @@ fn run_actions_in(cache: &Cache, pkgs0: &[PackageInfo], content: Option<&str>, l
     let found = index.find_at_position(Position { line, character: ch });
     let Some(p) = found else { return ("-".into(), vec![], vec![]) };
     // index in the ORIGINAL list (located packages keep name, version and line)
-    let idx = pkgs0.iter().position(|q| q.name == p.name && q.version == p.version && q.line == p.line && q.end_offset == p.end_offset).unwrap();
+    let idx = pkgs0.iter().position(|q| if content.is_none() { std::ptr::eq(q, p) } else { q.name == p.name && q.version == p.version && q.line == p.line && q.start_offset <= p.start_offset && p.end_offset <= q.end_offset }).unwrap();
     let actions = if p.registry_type == RegistryType::GitHubActions && p.commit_hash.is_some() {
         let rt = tokio::runtime::Builder::new_current_thread().enable_all().build().unwrap();
         rt.block_on(generate_bump_code_actions_with_sha(cache, p, &uri, &tags))
@@ -186,13 +186,14 @@ pub fn dispatch(op: &str, f: &[String]) -> Option<String> {
         // ca.doc <eco> <content> <line> <ch> <latestTag|-> <nver> v* <ntags> (tag sha|ERR)*
         //  -> parsed packages ; found ; per action: title|range|newText|reparsed packages (or EDIT-INVALID)
         "ca.locate" => {
-            // content, version, hash ("-" or S<hash>), start, end, line, column
+            // content, version, hash ("-" or S<hash>), start, end, line, column [, comment start, comment end]
+            let extra = if f.len() >= 9 { Some(ExtraInfo::GitHubActions { comment_text: "c".into(), comment_start_offset: f[7].parse().unwrap(), comment_end_offset: f[8].parse().unwrap() }) } else { None };
             let p = PackageInfo {
                 name: "x".into(), version: f[1].clone(),
                 commit_hash: if f[2] == "-" { None } else { Some(f[2][1..].to_string()) },
                 registry_type: RegistryType::Npm,
                 start_offset: f[3].parse().unwrap(), end_offset: f[4].parse().unwrap(), line: f[5].parse().unwrap(), column: f[6].parse().unwrap(),
-                extra_info: None,
+                extra_info: extra,
             };
             Some(match locate_version_in_token(&p, &f[0]) {
                 None => "none".into(),
